@@ -837,6 +837,7 @@ package openflow13
 // ---------------------------------------------------------------------------------------------
 // C05 container instances (lemma functions in zz_lemmas_verif.go)
 //@ func lemmaContBucket(b, a1, a2) (d, err, b1, b2) [C05]
+//@   bounded one bucket with exactly two actions (output, group)
 //@   inlinecalls
 //@   modreach
 //@   unroll 4
@@ -850,6 +851,7 @@ package openflow13
 //@   ensures[C03 C06] err == nil ==> be16(b1, 0) == 40 && be16(b1, 2) == b.Weight && be32(b1, 4) == b.WatchPort && be32(b1, 8) == b.WatchGroup && be16(b1, 16) == 0 && be16(b1, 18) == 16 && be32(b1, 20) == a1.Port && be16(b1, 24) == a1.MaxLen && be16(b1, 26) == 0 && be32(b1, 28) == 0 && be16(b1, 32) == 22 && be16(b1, 34) == 8 && be32(b1, 36) == a2.GroupId
 
 //@ func lemmaContInstrActions(a1, a2, a0, write) (i, d, err, b1, b2) [C05]
+//@   bounded one instruction with exactly three actions (two appended, one prepended)
 //@   inlinecalls
 //@   modreach
 //@   allowglobals
@@ -866,6 +868,7 @@ package openflow13
 //@   ensures[C02] i.Length == 40 && len(b1) == 40 && be16(b1, 2) == 40 && be16(b1, 0) == ite(write, 3, 4)
 
 //@ func lemmaContMatch(port, mac, mask) (d, err, b1, b2) [C05]
+//@   bounded a match with exactly two fields (in_port, masked eth_dst)
 //@   inlinecalls
 //@   modreach
 //@   allowglobals
@@ -879,6 +882,7 @@ package openflow13
 //@   ensures[C03 C06] err == nil ==> be16(b1, 0) == 1 && be16(b1, 2) == 28 && be32(b1, 4) == 2147483652 && be32(b1, 8) == port && be32(b1, 12) == 2147485452 && bytes_eq(b1, 16, mac, 0, 6) && bytes_eq(b1, 22, mask, 0, 6) && be32(b1, 28) == 0
 
 //@ func lemmaContGroupMod(g, b, a) (d, err, b1, b2) [C05]
+//@   bounded one bucket with one action
 //@   inlinecalls
 //@   modreach
 //@   allowglobals
@@ -893,6 +897,7 @@ package openflow13
 //@   ensures[C03 C06] err == nil ==> be16(b1, 16) == 32 && be16(b1, 18) == b.Weight && be32(b1, 20) == b.WatchPort && be32(b1, 24) == b.WatchGroup && be16(b1, 32) == 0 && be16(b1, 34) == 16 && be32(b1, 36) == a.Port && be16(b1, 40) == a.MaxLen && be16(b1, 42) == 0 && be32(b1, 44) == 0
 
 //@ func lemmaContPacketOut(p, a, raw) (d, err, b1, b2) [C05]
+//@   bounded one action and a raw payload
 //@   inlinecalls
 //@   modreach
 //@   allowglobals
@@ -906,6 +911,7 @@ package openflow13
 //@   ensures[C03 C06] err == nil ==> be16(b1, 24) == 0 && be16(b1, 26) == 16 && be32(b1, 28) == a.Port && be16(b1, 32) == a.MaxLen && be16(b1, 34) == 0 && be32(b1, 36) == 0
 
 //@ func lemmaContFlowMod(f, port, table, a) (d, err, b1, b2) [C05]
+//@   bounded one match field, two instructions, one action
 //@   inlinecalls
 //@   modreach
 //@   allowglobals
@@ -923,6 +929,7 @@ package openflow13
 //@   ensures[C03 C06] err == nil ==> be16(b1, 72) == 4 && be16(b1, 74) == 24 && be32(b1, 76) == 0 && be16(b1, 80) == 0 && be16(b1, 82) == 16 && be32(b1, 84) == a.Port && be16(b1, 88) == a.MaxLen && be16(b1, 90) == 0 && be32(b1, 92) == 0
 
 //@ func lemmaContBundleAddGroupMod(id, flags, g, b, a) (v, d, err, b1, b2) [C05]
+//@   bounded a bundled group-mod with one bucket and one action, no properties
 //@   inlinecalls
 //@   recurse 1
 //@   modreach
@@ -935,6 +942,7 @@ package openflow13
 //@   ensures err == nil ==> len(b1) == 72 && len(b2) == len(b1) && bytes_eq(b2, 0, b1, 0, len(b1))
 
 //@ func lemmaContConnTrack(flags, zone, ipMin, ipMax, pmin) (c, d, err, b1, b2) [C05]
+//@   bounded one nested NAT action with IPv4 range and port minimum
 //@   inlinecalls
 //@   recurse 1
 //@   modreach
@@ -948,6 +956,7 @@ package openflow13
 
 // thorough tier only: larger instances (two buckets with two actions each; a match with four fields, two masked)
 //@ func lemmaContGroupMod2x2(g, ba, bb, a1, a2, a3, a4) (d, err, b1, b2) [C05 C03]
+//@   bounded two buckets with two actions each
 //@   thoroughonly
 //@   inlinecalls
 //@   modreach
@@ -962,6 +971,7 @@ package openflow13
 //@   ensures err == nil ==> len(b2) == len(b1) && bytes_eq(b2, 0, b1, 0, len(b1))
 
 //@ func lemmaContMatch4(port, mac, mask, et, ip, ipmask) (d, err, b1, b2) [C05 C03]
+//@   bounded a match with exactly four fields
 //@   thoroughonly
 //@   inlinecalls
 //@   modreach
@@ -976,11 +986,13 @@ package openflow13
 // C03: conntrack builder calls (nicira-ext.h nx_action_conntrack: flags bit 0 = commit, bit 1 = force; zone_src 0 with the
 // immediate zone in zone_ofs_nbits / zone_imm; recirc_table) and NXM_NX_REGn matches with a bit range (mask = the range's bits)
 //@ func lemmaCtorConnTrackBuilders(table, zone) (b) [C03]
+//@   bounded the builder call sequence commit, force, table, immediate zone
 //@   inlinecalls
 //@   allowglobals
 //@   ensures[C03] be16(b, 0) == 65535 && be16(b, 2) == 24 && len(b) == 24 && be32(b, 4) == 8992 && be16(b, 8) == 35 && be16(b, 10) == 3 && be32(b, 12) == 0 && be16(b, 16) == zone && u8(b, 18) == table && u8(b, 19) == 0 && be16(b, 20) == 0 && be16(b, 22) == 0
 
 //@ func lemmaCtorConnTrackForceCommit() (b) [C03]
+//@   bounded the builder call sequence force, commit
 //@   inlinecalls
 //@   allowglobals
 //@   ensures[C03] be16(b, 8) == 35 && be16(b, 10) == 3 && len(b) == 24
@@ -999,6 +1011,7 @@ package openflow13
 //@   ensures[C03] be16(b, 0) == 1 && u8(b, 2) == uint8(idx) * 2 && u8(b, 3) == 4 && len(b) == 8 && be32(b, 4) == data
 
 //@ func lemmaContPacketIn(p, port, dst, src, raw) (d, err, b1, b2) [C05]
+//@   bounded one match field and an Ethernet frame with a raw payload
 //@   inlinecalls
 //@   modreach
 //@   allowglobals
